@@ -112,6 +112,14 @@ func GetExtendedSpatialIdsOnLine(
 	startSpatial := spatial.Point3{X: start.Lon(), Y: start.Lat(), Z: start.Alt()}
 	endSpatial := spatial.Point3{X: end.Lon(), Y: end.Lat(), Z: end.Alt()}
 
+	// 中点取得処理では始点・終点の座標からPointオブジェクトを再生成するため、緯度の小数点11位以下の切り捨てが再度行われる。
+	// この切り捨ては浮動小数点数では冪等でなく、緯度方向の境界付近の始点・終点は隣の拡張空間IDにずれる場合がある。
+	// 隣接判定はずれた拡張空間IDに対して行われるため、その拡張空間IDも結果に含めて線分上の拡張空間IDが途切れないようにする。
+	rebuiltStart, _ := object.NewPoint(startSpatial.X, startSpatial.Y, startSpatial.Z)
+	rebuiltEnd, _ := object.NewPoint(endSpatial.X, endSpatial.Y, endSpatial.Z)
+	rebuiltIDs, _ := GetExtendedSpatialIdsOnPoints([]*object.Point{rebuiltStart, rebuiltEnd}, hZoom, vZoom)
+	spatialIDs = append(spatialIDs, rebuiltIDs...)
+
 	// 中点取得時の閾値初期化
 	lonMinima := LonMinima
 	latMinima := LatMinima
